@@ -346,8 +346,17 @@ func bulkMain(args []string) {
 				}
 			}(id)
 		}
+		// ... and Clear itself from two goroutines at once, on maps of a few thousand entries
+		wg2.Add(1)
+		go func() {
+			defer wg2.Done()
+			for k := 0; atomic.LoadInt32(&stop) == 0 && k < 100000; k++ {
+				kv.Clear()
+				kv.Len()
+			}
+		}()
 		for c := 0; c < 6; c++ {
-			for k := 0; k < 200; k++ {
+			for k := 0; k < 3000; k++ {
 				kv.Set(1+k*w, k)
 			}
 			kv.Clear()
